@@ -498,3 +498,45 @@ def computer_config(spec, alias_key="alias"):
     if w is not None:
         d["window_function"] = w
     return d
+
+
+# --------------------------------------------------------------------------- package configuration
+
+import contextlib
+import functools
+
+
+@contextlib.contextmanager
+def config_overrides(values):
+    """Temporarily set attributes of pydrobert.speech.config (the statements refer to LOG_FLOOR_VALUE and
+    EFFECTIVE_SUPPORT_THRESHOLD by name: they are user-settable package constants, not literals)."""
+    from pydrobert.speech import config
+
+    old = {}
+    try:
+        for k, v in (values or {}).items():
+            old[k] = getattr(config, k)
+            setattr(config, k, v)
+        yield
+    finally:
+        for k, v in old.items():
+            setattr(config, k, v)
+
+
+def with_config(check):
+    """Wrap a check so that case["config"] (a dict of config attribute -> value, or None) is in force."""
+
+    @functools.wraps(check)
+    def wrapped(case):
+        with config_overrides(case.get("config") if isinstance(case, dict) else None):
+            return check(case)
+
+    return wrapped
+
+
+def log_floor_configs():
+    return st.one_of(st.none(), st.none(), st.none(), st.sampled_from([{"LOG_FLOOR_VALUE": 1e-3}, {"LOG_FLOOR_VALUE": 1e-9}, {"LOG_FLOOR_VALUE": 0.25}]))
+
+
+def threshold_configs():
+    return st.one_of(st.none(), st.none(), st.none(), st.sampled_from([{"EFFECTIVE_SUPPORT_THRESHOLD": 1e-3}, {"EFFECTIVE_SUPPORT_THRESHOLD": 1e-4}, {"EFFECTIVE_SUPPORT_THRESHOLD": 2e-3}]))
